@@ -20,7 +20,7 @@ type rowSpec struct {
 	Kind   int       `json:"kind"`
 	ID     uint64    `json:"id"`
 	Parent uint64    `json:"parent,omitempty"`
-	Refs   [2]uint64 `json:"refs"`
+	Refs   [3]uint64 `json:"refs"` // R1, R2 (reference fields), P (plain RecordID field)
 	// SetParent=false for argument children: sys.ParentID is left out and restored by the validator
 	OmitParent bool `json:"omit_parent,omitempty"`
 	// update rows only: 1 = set sys.IsActive true (reactivate), 2 = set it false (deactivate); no other field then
@@ -555,7 +555,7 @@ func run(sc *scenario) error {
 // ---- Coq printing ----
 
 func (r rowSpec) coq(single uint64) string {
-	return fmt.Sprintf("mkRow %d %d %s %d", r.ID, r.Parent, kit.List([]string{kit.N(r.Refs[0]), kit.N(r.Refs[1])}), single)
+	return fmt.Sprintf("mkRow %d %d %s %d", r.ID, r.Parent, kit.List([]string{kit.N(r.Refs[0]), kit.N(r.Refs[1]), kit.N(r.Refs[2])}), single)
 }
 
 func rowsCoq(rows []rowSpec, singles []uint64) string {
